@@ -26,6 +26,8 @@ func init() {
 			c.InferredVariableTypeIsDeclared(ob8)
 			ob9 := c.R.Ob("C17.9", "typestate/save-restore", "scoped overrides of the checker's send-all state restore the value read on entry (a leaked setting hides a send-all shape error)", 3)
 			c.SaveRestoreClosures(ob9)
+			ob10 := c.R.Ob("C17.10", "ctrl/world-diag", "a diagnostic about an @world overdraft address does not depend on the overdraft being bounded", 1)
+			c.WorldDiagnosticUnconditional(ob10)
 			ob5 := c.R.Ob("C17.5", "ctrl/severity", "the diagnostics for undeclared variable, unknown function, wrong arity, invalid type and type mismatch have error severity", 5)
 			c.SeverityIs(ob5, map[string]string{"UnboundVariable": "ErrorSeverity", "UnknownFunction": "ErrorSeverity", "BadArity": "ErrorSeverity", "InvalidType": "ErrorSeverity", "TypeMismatch": "ErrorSeverity", "DuplicateVariable": "ErrorSeverity", "Parsing": "ErrorSeverity", "InvalidUnboundedAccount": "ErrorSeverity"})
 		},
@@ -46,6 +48,8 @@ func init() {
 			c.SaveRestoreClosures(ob5)
 			ob4 := c.R.Ob("C16.4", "sumcheck/S2", "every expression child of every node kind is handed to the expression checker", 15)
 			c.S2(ob4, famCheck)
+			ob8 := c.R.Ob("C16.8", "sibling/inferred-type", "the type inferred for a variable is its declared type and for an infix expression the type of its left operand (what the interpreter computes)", 2)
+			c.InferredVariableTypeIsDeclared(ob8)
 			ob6 := c.R.Ob("C16.6", "typestate/scoped", "a field of the check state overwritten inside the recursive traversals is one that the save/restore helpers put back (nested nodes do not wipe what the enclosing node collected)", 2)
 			c.RecursiveStateScoped(ob6, relAnalysis, "CheckResult")
 			ob7 := c.R.Ob("C16.7", "sibling/typing-visits", "every expression position the interpreter evaluates is visited by the checker (a use inside an unvisited operand is neither resolved nor marked used)", 12)
